@@ -587,6 +587,22 @@ func checkJSON(c Case) error {
 			return stats.Failf("C20/json/"+k.Name+"/wrapped", "%s: wrapped round trip differs: %s\n json %s", k.Name, d, clip(wenc))
 		}
 	}
+	// types that parse their JSON themselves own the whole receiver: the form of the type's zero value parsed into a
+	// variable that holds v must give the zero value (a reused variable, a slice element decoded into again)
+	if reflect.PointerTo(k.Type).Implements(tJSONU) {
+		zero := reflect.Zero(k.Type)
+		if zenc, err := safeMarshal(zero.Interface()); err == nil && !bytes.Equal(zenc, enc) {
+			p := reflect.New(k.Type)
+			if safeUnmarshal(enc, p.Interface()) == nil && safeUnmarshal(zenc, p.Interface()) == nil {
+				q := reflect.New(k.Type)
+				if safeUnmarshal(zenc, q.Interface()) == nil {
+					if d := gen.Diff(q.Elem(), p.Elem()); d != "" {
+						return stats.Failf("C20/json/"+k.Name+"/reused-receiver", "%s: parsing %s into a variable that held a parsed value gives something else than parsing it into a fresh variable: %s\n first json %s", k.Name, clip(zenc), d, clip(enc))
+					}
+				}
+			}
+		}
+	}
 	f := features{}
 	walkFeatures(v, f)
 	labels, nt := f.labels("json:")
